@@ -637,8 +637,11 @@ func Run(cfg RunConfig, body func(s *Sched)) *Exec {
 	}
 	races0 := raceErrors()
 	closedChans = closedChans[:0]
+	closedKeep = closedKeep[:0]
 	resetGlobals()
+	inSetup = true
 	body(s)
+	inSetup = false
 	if len(s.threads) == 0 {
 		return &Exec{}
 	}
